@@ -42,7 +42,7 @@ func writeCex(path, prop string, r *ObRun, ob *Oblig) *Cex {
 		cx.Inputs[k] = ob.Model[k].String()
 	}
 	cx.Abstract = (len(r.Uses) > 0 || r.attr("cut", "") != "") && !ob.Concrete
-	cx.Ghost = r.UsedGhost
+	cx.Ghost = r.UsedGhost || hasUF(ob.Hyp) || hasUF(ob.Goal)
 	cx.PkgName = r.Ld.pkgs[r.Dir.Pkg].Pkg.Name()
 	b, _ := json.MarshalIndent(cx, "", " ")
 	writeFile(path, string(b)+"\n")
@@ -214,4 +214,13 @@ func readCex(path string) (*Cex, error) {
 		return nil, err
 	}
 	return &cx, nil
+}
+
+func hasUF(t *Term) bool {
+	for _, n := range topo(t) {
+		if n.op == OUF {
+			return true
+		}
+	}
+	return false
 }
